@@ -118,6 +118,10 @@ async def main(args):
             PA[n] = free_port()
             a_l.append({"name": n, "type": lk, "bind": "127.0.0.1:%d" % PA[n]})
             rules.append({"filter": 'request.listener == "%s"' % n, "target": ck})
+    PA["socks-direct"] = free_port()
+    a_l.append({"name": "socks-direct", "type": "socks", "bind": "127.0.0.1:%d" % PA["socks-direct"]})
+    rules.append({"filter": 'request.listener == "socks-direct"', "target": "direct"})
+    conns.append({"name": "direct"})
     A = Proxy(args.bin, base_cfg(a_l, conns, rules, metrics_port=PA["api"], history=200000), "A", wd)
     try:
         await B.start()
@@ -221,6 +225,60 @@ async def main(args):
                         out.violation("first proxy sent the next hop a request it cannot parse", {"listener": h.get("listener"), "next_hop_error": err[:300]})
                     continue
                 out.violation("next hop recorded a destination that no client asked for (re-split or re-interpreted)", {"next_hop_recorded": str(h.get("target")), "listener": h.get("listener")})
+        # ---- UDP: the destination is carried per datagram. One association, datagrams to the same host NAME on different ports
+        # and to different spellings of the same host on one port: every datagram must arrive at the port it names
+        loop = asyncio.get_running_loop()
+        sinks = []
+        for _ in range(3):
+            u = socket.socket(socket.AF_INET, socket.SOCK_DGRAM)
+            u.bind(("127.0.0.1", 0))
+            u.setblocking(False)
+            sinks.append(u)
+        ctl = await open_conn("127.0.0.1", PA["socks-direct"])
+        try:
+            ctl.write(bytes([5, 1, 0]))
+            await ctl.drain()
+            await ctl.read_exact(2, timeout=3)
+            ctl.write(bytes([5, 3, 0, 1, 0, 0, 0, 0, 0, 0]))
+            await ctl.drain()
+            rep = await ctl.read_exact(10, timeout=3)
+            relay = ("127.0.0.1", struct.unpack(">H", rep[8:10])[0])
+            cu = socket.socket(socket.AF_INET, socket.SOCK_DGRAM)
+            cu.bind(("127.0.0.1", 0))
+            cu.setblocking(False)
+            plan = []
+            for k in range(40 if args.thorough else 16):
+                name = rng.choice([b"localhost", b"localhost", b"LOCALHOST", b"127.0.0.1"])
+                plan.append((name, rng.randrange(3)))
+            sent = []
+            for k, (name, si) in enumerate(plan):
+                port = sinks[si].getsockname()[1]
+                payload = b"c03-udp-%d-%d" % (args.seed, k)
+                a = (b"\x01" + socket.inet_pton(socket.AF_INET, name.decode())) if name == b"127.0.0.1" else (b"\x03" + bytes([len(name)]) + name)
+                await loop.sock_sendto(cu, b"\0\0\0" + a + struct.pack(">H", port) + payload, relay)
+                sent.append((payload, si, name))
+                await asyncio.sleep(0.02)
+            await asyncio.sleep(0.5)
+            got = {}
+            for si, u in enumerate(sinks):
+                while True:
+                    try:
+                        d, _ = u.recvfrom(65536)
+                        got.setdefault(d, []).append(si)
+                    except BlockingIOError:
+                        break
+            for payload, si, name in sent:
+                out.case()
+                where = got.get(payload, [])
+                out.nontrivial(("udp", "direct", name.decode(), si, tuple(where)))
+                if where and where != [si]:
+                    out.violation("UDP datagram delivered to another destination port than the one it names [socks5 via direct]",
+                                  {"named_host": name.decode(), "named_sink": si, "arrived_at_sinks": where, "datagram": payload.decode()})
+            cu.close()
+        finally:
+            ctl.close()
+            for u in sinks:
+                u.close()
         out.setx("requests", len(reqs))
         for p in (A, B):
             if not p.alive():
